@@ -109,8 +109,9 @@ class PersistentMixin(Module):
                 pobj = self.parameters[pname]
                 if getattr(pobj, 'persistent', False):
                     datatype = self.parameters[pname].datatype
-                    # validate: the stored value may not fit (any more) into the datatype
-                    result[pname] = datatype.validate(datatype.import_value(value))
+                    # the stored value may not fit (any more) into the datatype: it must be complete
+                    # (datatype() does not accept structs with missing members) and within the limits
+                    result[pname] = datatype.validate(datatype(datatype.import_value(value)))
             except Exception as e:
                 # ignore invalid persistent data (in case parameters have changed)
                 self.log.warning('can not restore %r to %r (%r)', pname, value, e)
